@@ -2,7 +2,7 @@
 Require Import ZArith List Bool Lia ZifyBool.
 Import ListNotations.
 Local Open Scope Z_scope.
-From EphVerif Require Import lib.Bytes spec.Sha256Spec model.Sha256Model proofs.Sha256Proofs model.PowModel
+From EphVerif Require Import lib.Bytes lib.Sweep spec.Sha256Spec model.Sha256Model proofs.Sha256Proofs model.PowModel
   gen.Constants_pow.
 Ltac Zify.zify_post_hook ::= Z.div_mod_to_equations.
 
@@ -43,13 +43,6 @@ Proof.
 Qed.
 
 (* ---- byte-level facts by exhaustive evaluation over the whole finite domain ---- *)
-Definition bytes256 : list Z := map Z.of_nat (seq 0 256).
-Lemma in_bytes256 b : byte_ok b -> In b bytes256.
-Proof.
-  intros H. unfold bytes256. apply in_map_iff. exists (Z.to_nat b). split; [unfold byte_ok in H; lia|].
-  apply in_seq. unfold byte_ok in H. lia.
-Qed.
-
 (* clz8 is the position of the highest set bit: clz8 b >= k  <->  b < 2^(8-k) *)
 Definition clz8_value_check (b : Z) : bool :=
   forallb (fun k => Bool.eqb (k <=? clz8 b) (b <? 2 ^ (8 - k))) [0; 1; 2; 3; 4; 5; 6; 7; 8].
